@@ -476,10 +476,12 @@ def inclusion(run, R="INC"):
         # `..` with an empty stack -> error + Err; the pop happens only on the other edge
         found = False
         for bi, t in nav.calls():
-            if (t.get("callee") or "") == "std::cmp::PartialEq::eq" and any(T.promoted_str(prog, nav, x) == ".." for x in t["args"]) and t["target"] is not None:
+            if (t.get("callee") or "") in ("std::cmp::PartialEq::eq", "std::cmp::PartialEq::ne") and any(T.promoted_str(prog, nav, x) == ".." for x in t["args"]) and t["target"] is not None:
                 sw = T.bool_test(nav, t)
                 if sw is None:
                     continue
+                if t["callee"].endswith("ne"):
+                    sw = (sw[1], sw[0], sw[2])     # (`is ..` edge, `is not ..` edge, block)
                 swb = sw[2] if len(sw) > 2 else sw[2]
                 reg = T.dominated_region(nav, sw[0], swb)
                 removes = [b3 for b3, t3 in T.region_calls(nav, reg) if (t3.get("callee") or "").endswith("::remove") or (t3.get("callee") or "").endswith("::pop")]
@@ -515,10 +517,12 @@ def inclusion(run, R="INC"):
         stack_ok = False
         why_s = "collapse stack not found"
         for bi, t in nav.calls():
-            if (t.get("callee") or "") == "std::cmp::PartialEq::eq" and any(T.promoted_str(prog, nav, x) == ".." for x in t["args"]) and t["target"] is not None:
+            if (t.get("callee") or "") in ("std::cmp::PartialEq::eq", "std::cmp::PartialEq::ne") and any(T.promoted_str(prog, nav, x) == ".." for x in t["args"]) and t["target"] is not None:
                 sw = T.bool_test(nav, t)
                 if sw is None:
                     continue
+                if t["callee"].endswith("ne"):
+                    sw = (sw[1], sw[0], sw[2])
                 reg = T.dominated_region(nav, sw[0], sw[2])
                 pops = [t3 for b3, t3 in T.region_calls(nav, reg) if (t3.get("callee") or "").endswith("::remove") or (t3.get("callee") or "").endswith("::pop")]
                 if not pops:
